@@ -150,17 +150,26 @@ def first_diff(exp, got):
     return None
 
 
-def compare_column(col, n, result, check_dtype=True, rows=None):
+def compare_column(col, n, result, check_dtype=True, rows=None, ns_ok=False):
     """Compare one result column with the expectation.  `rows`: optional list of
     row positions of the original frame the result is supposed to hold.
+    `ns_ok`: a datetime column may come back in nanoseconds (INT96 storage is
+    nanoseconds by definition); instants are then compared.
     Returns None or (aspect, detail)."""
     exp = cases.expected_column(col, n)
     if rows is not None:
         exp = [exp[i] for i in rows]
     if check_dtype:
         dt = str(result.dtype)
-        if dt not in expected_dtype(col):
-            return ("dtype", "dtype %s not in %s" % (dt, sorted(expected_dtype(col))))
+        allowed = set(expected_dtype(col))
+        if ns_ok and col["kind"] == "datetime" and col["unit"] != "ns":
+            alt = dict(col, unit="ns")
+            if dt in expected_dtype(alt):
+                f = cases.UNIT_NS[col["unit"]]
+                exp = [e if e is MISSING else e * f for e in exp]
+            allowed |= expected_dtype(alt)
+        if dt not in allowed:
+            return ("dtype", "dtype %s not in %s" % (dt, sorted(allowed)))
     got, problems = canon_cells(result, col)
     if problems:
         return ("celltype", problems[0])
